@@ -59,8 +59,8 @@ theorem fastRead_alloc (r : R) (n : Nat) : (fastRead r n).r.alloc = r.alloc := b
   repeat' split
   all_goals rfl
 
-theorem readTagValue_alloc (r : R) (t : Tag) : (readTagValue r t).r.alloc = r.alloc := by
-  unfold readTagValue
+theorem readTagValue0_alloc (r : R) (t : Tag) : (readTagValue0 r t).r.alloc = r.alloc := by
+  unfold readTagValue0
   simp only
   split
   · rename_i r1 e heq
@@ -72,6 +72,8 @@ theorem readTagValue_alloc (r : R) (t : Tag) : (readTagValue r t).r.alloc = r.al
     have := discard_alloc (if t.isEmbedded = true then { r with hazard := true } else r) ((t.off : Int) - (if t.isEmbedded = true then { r with hazard := true } else r).po)
     rw [heq] at this
     rw [fastRead_alloc, this]; split <;> rfl
+
+theorem readTagValue_alloc (r : R) (t : Tag) : (readTagValue r t).r.alloc = r.alloc := readTagValue0_alloc r t
 
 /-- **Strings come from delivered bytes**: whatever size a tag declares, the bytes turned into a string are at most
 the bytes still in the stream (out-of-line) or the 4 bytes of the offset slot (embedded), and never more than one
@@ -93,7 +95,8 @@ theorem C14_string_from_stream (r : R) (t : Tag) (r' : R) (s : Bytes) (h : parse
       refine ⟨by simp only [readTagValue_alloc], Or.inl ?_⟩
       have h1 := trimNUL_le (readTagValue r t).buf
       have h2 : (readTagValue r t).buf.length ≤ r.rest.length := by
-        unfold readTagValue
+        show (readTagValue0 r t).buf.length ≤ r.rest.length
+        unfold readTagValue0
         simp only
         split
         · simp
